@@ -619,7 +619,11 @@ def _check_limits_case(case, res):
         if n == 1 or a == b:
             sets = [(di, float(a))]  # equal consecutive positions are not re-set by one_nd_step
         else:
-            sets = [(di, a + (b - a) * i / (n - 1)) for i in range(n)]
+            sets = []
+            for i in range(n):
+                v = a + (b - a) * i / (n - 1)
+                if not sets or sets[-1][1] != v:  # (denormal spans: neighbouring points can round to one value)
+                    sets.append((di, v))
     else:
         raise ValueError(form)
 
